@@ -107,7 +107,7 @@ func schemaClasses(o *hx.Obs, m *dm.Module) {
 	for _, n := range m.Top {
 		walk(n)
 	}
-	for name, on := range map[string]bool{"augment": aug, "shorthand case": short, "a reused name": reused, "leafref": leafref, "union": union, "identities in a submodule": m.SubIdents > 0} {
+	for name, on := range map[string]bool{"augment": aug, "shorthand case": short, "a reused name": reused, "leafref": leafref, "union": union, "identities in a submodule": m.SubIdents > 0, "top-level nodes in a submodule": len(m.Top) > 0 && m.Top[len(m.Top)-1].Sub} {
 		if on {
 			o.Class("schema has: %s", name)
 		}
